@@ -529,6 +529,7 @@ class DivPlugin(PrimitiveLeafPlugin):
             and rhs_scalar is not None
             and np.isclose(rhs_scalar, 2.0)
             and getattr(lhs_producer, "op_type", "") == "Add"
+            and (getattr(lhs_producer, "domain", "") or "") == ""
             and len(lhs_inputs) == 2
         ):
             add_lhs, add_rhs = lhs_inputs
